@@ -74,6 +74,7 @@ func init() {
 			{"loop-memo", "a local initialised once inside a loop (if v == nil { v = ... }) and reused by later iterations is not derived from a variable the loop body changes between iterations (a key buffer rewritten per element, a cursor): later iterations would reuse what the first one saw", func(c *Ctx) { ruleLoopMemo(c, "pkg/core", "pkg/core/dao", "pkg/core/storage") }},
 			{"enum-switch", "every switch over a module enumeration (named integer type with at least three constants) has a default clause or names every kind: no kind falls through a default-less switch silently", func(c *Ctx) { ruleEnumSwitch(c, "pkg/core", "pkg/core/dao", "pkg/core/storage") }},
 			{"loop-accumulator", "a boolean that summarises a loop (some element needs X / all elements satisfy Y) and is read after it is accumulated monotonically - set to a constant, combined with its previous value, assigned under a test of itself, or followed by leaving the loop - never overwritten by the value computed for the current element only", func(c *Ctx) { ruleLoopAccumulator(c, "pkg/core", "pkg/core/dao", "pkg/core/storage") }},
+			{"inactive-after-jump", "the state-sync module sets its stage to inactive only after the jump callback ran on the same path, or at the tabled exits where the ledger needs no jump (a restart between the last synchronised block and the jump is not one of them)", ruleInactiveAfterJump},
 			{"stage-machine", "reset and jump are well-formed stage machines: unknown stage is an error; each stage ends by recording the label of the next clause as its last write and persists that layer before falling through; no value captured before the switch from a field a stage changes is used after that stage; the tail removes the marker; start-up resumes from it", ruleStageMachine},
 			{"cache-init", "a node reopened after a crash rebuilds every native cache field from storage and raises the in-memory dirty flags that have no storage record (votesChanged), so the blocks that follow give the same state roots as on a node that never stopped", ruleCacheInit},
 			{"resume-path", "no stage deletes data that Blockchain.init reads before it dispatches on the stage marker, and in-memory module state established inside one stage clause is also established on the common path (so a run resumed from a later stage has it)", ruleResumePath},
@@ -97,6 +98,7 @@ func init() {
 			{"stage-machine", "the state jump that ends a state synchronisation is a well-formed stage machine: markers name the next clause and are persisted with the stage, and everything the jump writes to the store is in or before the batch that removes the marker (a restart at any point resumes or finds the jump complete)", ruleStageMachine},
 			{"sync-guards", "restored MPT nodes are stored only behind the hash comparison; statesync stores blocks only behind index/setting/Merkle/header-hash/stage checks; stage bits are set only after the root/sync-point test and a synchronous persist; queue slots are cleared only behind a content test; each restore call gets its own clone", ruleSyncGuards},
 			{"traverse-callback", "a Billet.Traverse callback that removes the node's hash from a container on the first occurrence does not panic merely because a later occurrence of the same hash (equal subtrees) is not found there", ruleTraverseCallback},
+			{"inactive-after-jump", "the state-sync module sets its stage to inactive only after the jump callback ran on the same path, or at the tabled exits where the ledger needs no jump (restart with everything fetched is not one of them)", ruleInactiveAfterJump},
 			{"chan-typestate", "every send on Queue.checkBlocks holds queueLock and follows a `discarded` check made after the lock was last acquired; the channel is closed only by the function that sets the flag", ruleChanTypestate},
 		},
 		NotCovered: "ring-buffer position arithmetic, lastQ, in-order application, pool/path bookkeeping, lockstep with the source node",
